@@ -241,36 +241,24 @@ pub fn node_histogram(d: &crate::refdec::Decoded, ev: &mut crate::ctx::Ev) {
     ev.count("cov:files-decoded");
 }
 
+/// Floors that make a run inconclusive when missed. Only classes that follow from the harness' own INPUTS are gated
+/// (how often each generator family ran); what the decoder finds in the produced bytes (node forms, pack widths,
+/// common-input use) depends on the encoder's policy and is recorded as evidence only.
 pub fn structural_floors(thorough: bool) -> Vec<(&'static str, u64)> {
     let mut v = vec![
-        ("cov:form=OTN", 1),
-        ("cov:form=OT", 1),
-        ("cov:form=AT", 1),
-        ("cov:fanout=0", 1),
-        ("cov:fanout=1", 1),
-        ("cov:fanout=2..32", 1),
-        ("cov:fanout=33..63", 1),
-        ("cov:fanout=64..255", 1),
-        ("cov:fanout=256", 1),
-        ("cov:osize=0", 1),
-        ("cov:osize=1", 1),
-        ("cov:osize=2", 1),
-        ("cov:osize=3", 1),
-        ("cov:osize=4", 1),
-        ("cov:osize=5", 1),
-        ("cov:osize=6", 1),
-        ("cov:osize=7", 1),
-        ("cov:osize=8", 1),
-        ("cov:tsize=1", 1),
-        ("cov:tsize=2", 1),
-        ("cov:tsize=3", 1),
-        ("cov:final-with-output", 1),
-        ("cov:index-present", 1),
-        ("cov:input-common", 1),
-        ("cov:input-explicit", 1),
+        ("family:ab3-subsets", 90_000),
+        ("family:fanout", 700),
+        ("family:fanout-x-width", 100),
+        ("family:cache-digest-collision", 40),
+        ("family:single-bytes", 500),
+        ("family:long-keys", 16),
+        ("family:dense-product", 6),
+        ("family:corpus", 4),
+        ("family:random", 1000),
+        ("family:bulk", 4),
     ];
     if thorough {
-        v.push(("cov:tsize=4", 1));
+        v.push(("family:abc2-subsets", 40_000));
     }
     v
 }
